@@ -12,16 +12,17 @@
    traces_agree : after every statement: same raised/not-raised flag, StInv, Sim.
    holds st y t : the machine's variable y stands for the tree t.
 
-   FRAGMENT covered (`frag`, defined in Rc/Cow_proofs.v; notes/C01.md spells it out): arbitrary nesting, arbitrary
-   index paths, all payload kinds (list, dict with/without default, string, vector, bytes, struct instance);
-   statements  x[p] = e,  every x[p] = e (p with slices),  x[p] f= e  (append ++ + |. -.),
-   [y[q] =] pop|remove|consume x[p]  (remove also by slice),  swap x[p], y[q];  expressions  literal, x[p] (also
+   FRAGMENT covered (`ffrag`, defined in Rc/For_proofs.v over `sfrag` of Rc/Cow_proofs.v; notes/C01.md spells it
+   out): arbitrary nesting, arbitrary index paths, all payload kinds (list, dict with/without default, string,
+   vector, bytes, struct instance); statements  x[p] = e,  every x[p] = e (p with slices),  x[p] f= e  (append ++ +
+   |. -.),  [y[q] =] pop|remove|consume x[p]  (remove also by slice),  swap x[p], y[q],
+   for (it <- x[p]) (simple statements)  with the cloning/draining iterator;  expressions  literal, x[p] (also
    slices), getter closure, [e..], e{k = e'}, call of a function that mutates its parameter (incl. `every`).
    Write paths of the non-`every` forms contain no slice (that is todo!() in set_index, finding F11).
-   NOT covered by the theorems (correspondence only): for-loops, the builtins || and |.. .
-   The full statement is the same with `forallb frag ops = true` dropped. *)
+   NOT covered by the theorems (correspondence only): the builtins || and |.. as op-assign operators.
+   The full statement is the same with `forallb ffrag ops = true` dropped. *)
 From Coq Require Import ZArith List Bool.
-From NV Require Import Rc.ValueSem Rc.Heap Rc.Cow Rc.Heap_proofs Rc.Cow_proofs Rc.Corollaries_proofs.
+From NV Require Import Rc.ValueSem Rc.Heap Rc.Cow Rc.Heap_proofs Rc.Cow_proofs Rc.For_proofs Rc.Corollaries_proofs.
 Import ListNotations.
 
 (* the abstraction is a (partial) function of the heap and the handle value *)
@@ -31,21 +32,21 @@ Print Assumptions C01_abs_functional.
 
 (* inv_preserved + cow_refines_value, one statement: the count invariant is kept and the machine stays
    related to the value semantics, with the same raised/not-raised outcome *)
-Theorem C01_step_refines : forall s, frag s = true -> forall st sg st' ok,
+Theorem C01_step_refines : forall s, ffrag s = true -> forall st sg st' ok,
   StInv st -> Sim st sg -> m_exec st s = (st', ok) ->
   exists sg', exec sg s = (sg', ok) /\ StInv st' /\ Sim st' sg'.
-Proof. exact m_exec_ok. Qed.
+Proof. exact m_exec_ok_f. Qed.
 Print Assumptions C01_step_refines.
 
 (* every history, observed after every statement (every prefix), from n null variables *)
-Theorem C01_cow_refines_value : forall n ops, forallb frag ops = true ->
+Theorem C01_cow_refines_value : forall n ops, forallb ffrag ops = true ->
   traces_agree (run_cow (init_state n) ops) (run_value (repeat VNull n) ops).
-Proof. intros n ops H. apply run_refines; auto; apply init_ok. Qed.
+Proof. intros n ops H. apply run_refines_f; auto; apply init_ok. Qed.
 Print Assumptions C01_cow_refines_value.
 
-Theorem C01_inv_preserved : forall n ops, forallb frag ops = true ->
+Theorem C01_inv_preserved : forall n ops, forallb ffrag ops = true ->
   StInv (final_cow (init_state n) ops) /\ Sim (final_cow (init_state n) ops) (final_value (repeat VNull n) ops).
-Proof. intros n ops H. apply final_refines; auto; apply init_ok. Qed.
+Proof. intros n ops H. apply final_refines_f; auto; apply init_ok. Qed.
 Print Assumptions C01_inv_preserved.
 
 (* in the value semantics a statement changes only the variables it names as targets (all statement forms) *)
@@ -55,7 +56,7 @@ Print Assumptions C01_spec_frame.
 
 (* a value copied into another variable is never changed by a later mutation of the original *)
 Theorem C01_alias_unaffected : forall n ops1 x y ops2 t,
-  forallb frag (ops1 ++ Simple (SAssign y [] (ERead x [])) :: ops2) = true ->
+  forallb ffrag (ops1 ++ Simple (SAssign y [] (ERead x [])) :: ops2) = true ->
   (forall s, In s ops2 -> ~ In y (writes s)) ->
   y < n ->
   nth_error (final_value (repeat VNull n) ops1) x = Some t ->
@@ -65,7 +66,7 @@ Print Assumptions C01_alias_unaffected.
 
 (* ... and the same for a copy made by any statement (container element, sub-path, update, call result) *)
 Theorem C01_alias_unaffected_gen : forall n ops1 ops2 y t,
-  forallb frag (ops1 ++ ops2) = true ->
+  forallb ffrag (ops1 ++ ops2) = true ->
   (forall s, In s ops2 -> ~ In y (writes s)) ->
   nth_error (final_value (repeat VNull n) ops1) y = Some t ->
   holds (final_cow (init_state n) (ops1 ++ ops2)) y t.
@@ -74,7 +75,7 @@ Print Assumptions C01_alias_unaffected_gen.
 
 (* calling a function that mutates its parameter leaves the argument variable unchanged *)
 Theorem C01_call_leaves_argument : forall n ops x y m t,
-  forallb frag (ops ++ [Simple (SAssign y [] (ECall m (ERead x [])))]) = true ->
+  forallb ffrag (ops ++ [Simple (SAssign y [] (ECall m (ERead x [])))]) = true ->
   x <> y ->
   nth_error (final_value (repeat VNull n) ops) x = Some t ->
   holds (final_cow (init_state n) (ops ++ [Simple (SAssign y [] (ECall m (ERead x [])))])) x t.
@@ -83,7 +84,7 @@ Print Assumptions C01_call_leaves_argument.
 
 (* a closure shares the variable, not the value it had when the closure was made *)
 Theorem C01_closure_sees_variable_not_value : forall n ops x y t,
-  forallb frag (ops ++ [Simple (SAssign y [] (EGet x))]) = true ->
+  forallb ffrag (ops ++ [Simple (SAssign y [] (EGet x))]) = true ->
   y < n ->
   nth_error (final_value (repeat VNull n) ops) x = Some t ->
   holds (final_cow (init_state n) (ops ++ [Simple (SAssign y [] (EGet x))])) y t.
@@ -100,10 +101,12 @@ Example C01_nonvacuous :
               Simple (SOp 1 [] BAppend (ERead 2 [PI 0]));
               Simple (SMod (Some (3, [])) 2 (LPop []));
               Simple (SAssign 4 [] (EUpd (ERead 1 []) (PI 0) (ELit (VInt 7))));
-              Simple (SAssign 4 [PI 1] (ECall (LSet [PI 0] (VInt 9)) (ERead 1 [PI 3])))] in
-  forallb frag ops = true /\
+              Simple (SAssign 4 [PI 1] (ECall (LSet [PI 0] (VInt 9)) (ERead 1 [PI 3])));
+              SFor 2 [] [SOp 2 [] BAppend (ERead 0 []); SAssign 3 [PI 0] (ERead 0 [PI 2])];
+              Simple (SEvery 2 [PSl (Some 1%Z) None; PI 0] (ELit (VInt 8)))] in
+  forallb ffrag ops = true /\
   final_value (repeat VNull 5) ops =
-    [VNull; VList [VInt 0; VInt 0; VInt 0; row]; VList [row]; VList [VInt 0; VInt 0; VInt 3];
+    [VNull; VList [VInt 0; VInt 0; VInt 0; row]; VList [row; VList [VInt 8; VInt 0; VInt 0]]; VList [VInt 0; VInt 0; VInt 3];
      VList [VInt 7; VList [VInt 9; VInt 0; VInt 0]; VInt 0; row]] /\
   map (abs_val 6 (mheap (final_cow (init_state 5) ops))) (roots (final_cow (init_state 5) ops))
     = map Some (final_value (repeat VNull 5) ops).
